@@ -19,3 +19,30 @@ Fixpoint run_queries (sb : SigBits) (qs : list (Z * Z * Z)) : option (list (Z * 
       | _, _ => None
       end
   end.
+
+(** * a cross-function session on ONE key slice and ONE SigBits built from it:
+      CountPrefixes queries on the object, interleaved with ShardByPrefix(keys, maxSize)
+      and FirstDiffBits(keys) on the very same []string.  ShardByPrefix computes its own
+      FirstDiffBits(keys) (sharding.go:14) and shifts copies ([firstDiffs[i]>>3] is an
+      expression), FirstDiffBits makes a fresh slice: neither touches the object, so the
+      session is a map over the steps.  The value ShardByPrefix returns is C17's matter and
+      is not part of this model's output ([(0, [])]); its panic is. *)
+Inductive sstep : Type :=
+| QCount (s e m : Z)
+| QShard (maxSize : Z)
+| QFdb.
+
+Fixpoint run_session (keys : list (list Z)) (sb : SigBits) (steps : list sstep) : option (list (Z * list Z)) :=
+  match steps with
+  | [] => Some []
+  | st :: t =>
+      let r := match st with
+               | QCount s e m => CountPrefixes sb s e m
+               | QShard ms => match ShardByPrefix keys ms with Some _ => Some (0, []) | None => None end
+               | QFdb => match FirstDiffBits keys with Some ds => Some (0, ds) | None => None end
+               end in
+      match r, run_session keys sb t with
+      | Some r, Some rs => Some (r :: rs)
+      | _, _ => None
+      end
+  end.
